@@ -60,7 +60,7 @@ MCDecos == {DTight, DCom}
 MCDecosT == {DTight, DSpaced, DCom, DBlank}
 \* thorough: the slots vary independently (gap x blank before '=' x blank after the value x value end)
 MCDecosP == {D(g, IF g = "none" THEN "none" ELSE "nl", b1, b1, b3, t) :
-               g \in {"none", "com"}, b1 \in {"none", "sp"}, b3 \in {"none", "sp"}, t \in {"nl", "com"}}
+               g \in {"none", "com"}, b1 \in {"none", "sp"}, b3 \in {"none", "sp"}, t \in {"nl", "com"}} \ {D("none", "none", "sp", "sp", "none", "com"), D("com", "nl", "sp", "sp", "none", "com")}
 MCConfigsQ == ShippedConfigs \cup {Cfg(FmtEncSame, Null), Cfg(FmtEncNest, Null), Cfg(FmtOptEnd, Null)}
 
 Bound == TRUE
